@@ -56,6 +56,7 @@ type World struct {
 	eff        *effectInfo
 	fl         *flowInfo
 	ai         *absint
+	synthPos   map[ssa.Instruction]string
 	storeSets  map[*ssa.Function]map[*types.Var]bool
 	NPkgs      int
 	NFuncs     int
@@ -180,6 +181,9 @@ func (w *World) pos(p token.Pos) string {
 }
 
 func (w *World) instrPos(in ssa.Instruction) string {
+	if s, ok := w.synthPos[in]; ok {
+		return s
+	}
 	if in.Pos().IsValid() {
 		return w.pos(in.Pos())
 	}
